@@ -572,6 +572,7 @@ func shortCase(c *Ctx, durTicks int64) *hcase {
 // ---------- run ----------
 
 func run(c *Ctx) {
+	probeNoHls(c)
 	var cases []*hcase
 	for _, l := range c.CorpusLines() {
 		if k := parseCase(l); k != nil {
